@@ -19,6 +19,7 @@ type HistCfg struct {
 	Small              bool  // small value domains everywhere (many equal values)
 	FlushFlags         bool  // draw FlushAfter per statement
 	NoDDLAfterStart    bool
+	NoMutations        bool // no UPDATE / DELETE
 	WhereNullable      bool
 }
 
@@ -253,6 +254,9 @@ func NextStmt(rt *rapid.T, cfg HistCfg, db *model.DB) (model.Stmt, bool) {
 	kind := "create"
 	if len(names) > 0 {
 		w := []string{"insert", "insert", "insert", "insert", "insert", "update", "update", "delete", "delete"}
+		if cfg.NoMutations {
+			w = []string{"insert", "insert", "insert"}
+		}
 		if len(names) < cfg.MaxTables && !cfg.NoDDLAfterStart {
 			w = append(w, "create", "create")
 		}
